@@ -221,6 +221,8 @@ func (f *g2lFn) findMutated(fd *ast.FuncDecl) {
 			}
 		case *ast.IncDecStmt:
 			mark(x.X)
+		case *ast.ExprStmt:
+			f.markExprStmt(x) // go2lean_buffer.go
 		case *ast.RangeStmt:
 			if x.Tok == token.ASSIGN {
 				if x.Key != nil {
@@ -233,6 +235,7 @@ func (f *g2lFn) findMutated(fd *ast.FuncDecl) {
 		}
 		return true
 	})
+	f.findMutatedEnv(fd) // go2lean_env.go
 }
 
 // ---------------------------------------------------------------- statements
@@ -288,11 +291,14 @@ func (f *g2lFn) assignTo(l ast.Expr, val string, define bool, ind int) []string 
 		if !ok || f.names[o] == "" {
 			f.fail("assignment to `%s` (not a local of this function)", x.Name)
 		}
-		return []string{fmt.Sprintf("%s%s := %s", g2lInd(ind), f.names[o], val)}
+		return append([]string{fmt.Sprintf("%s%s := %s", g2lInd(ind), f.names[o], val)}, f.afterIdentAssign(o, ind)...) // go2lean_own.go: cursors write back
 	case *ast.SelectorExpr:
 		// x.f = v  ⇒  x = { x with f := v }   (x a struct VALUE, possibly itself a field or element)
 		xt := f.typeOf(x.X)
-		if g2lKindOf(xt) != kStruct && !f.inOutBase(x.X) {
+		if out, ok := f.ptrFieldAssign(x, val, ind); ok { // go2lean_env.go
+			return out
+		}
+		if g2lKindOf(xt) != kStruct && !f.inOutBase(x.X) && !(g2lIsPtr(xt) && f.ownWritable(x.X)) { // go2lean_own.go
 			f.fail("assignment to `%s` (only fields of struct values; through a pointer the callee's caller would see it)", f.src(l))
 		}
 		n := f.namedOf(xt)
@@ -302,20 +308,24 @@ func (f *g2lFn) assignTo(l ast.Expr, val string, define bool, ind int) []string 
 		if sel := f.g.info.Selections[x]; sel == nil || sel.Kind() != types.FieldVal || len(sel.Index()) != 1 {
 			f.fail("assignment to `%s`", f.src(l))
 		}
-		return f.assignTo(x.X, fmt.Sprintf("{ %s with %s := %s }", f.expr(x.X), f.fieldLean(n, x.Sel.Name), val), false, ind)
+		base, wrap := f.updateBase(x.X) // go2lean_own.go: the pointee of a pointer on a writable path
+		return f.assignThrough(x.X, wrap(fmt.Sprintf("{ %s with %s := %s }", base, f.fieldLean(n, x.Sel.Name), val)), ind)
 	case *ast.IndexExpr:
 		// x[i] = v  ⇒  x = x.set i v   (x an ARRAY value; slices alias their backing array)
 		if out, ok := f.mapAssign(x, val, ind); ok {
 			return out
 		}
-		if _, isArr := f.typeOf(x.X).Underlying().(*types.Array); !isArr && !f.localSliceOK(x.X) { // go2lean_string.go
+		if _, isArr := f.typeOf(x.X).Underlying().(*types.Array); !isArr && !f.localSliceOK(x.X) && !f.ownWritable(x.X) { // go2lean_string.go, go2lean_own.go
 			f.fail("assignment to an element of `%s` (not an array value: slices alias their backing array)", f.src(x.X))
 		}
 		i := f.expr(x.Index)
 		if g2lKindOf(f.typeOf(x.Index)) == kInt {
 			i = "Int.toNat " + g2lPar(i)
 		}
-		return f.assignTo(x.X, fmt.Sprintf("%s.set %s %s", g2lPar(f.expr(x.X)), g2lPar(i), g2lPar(val)), false, ind)
+		return f.assignThrough(x.X, fmt.Sprintf("%s.set %s %s", g2lPar(f.expr(x.X)), g2lPar(i), g2lPar(val)), ind)
+	}
+	if out, ok := f.assignOther(l, val, ind); ok { // go2lean_own.go: *p = v
+		return out
 	}
 	if sx, ok := l.(*ast.StarExpr); ok { // go2lean_codec.go
 		if out, ok := f.starAssign(sx, val, ind); ok {
@@ -392,11 +402,17 @@ func (f *g2lFn) ret(x *ast.ReturnStmt, ind int) []string {
 	}
 	switch len(x.Results) {
 	case 0:
-		if io := f.inOutNames(); len(io) > 0 && f.fnObj != nil && f.fnObj.Type().(*types.Signature).Results().Len() == 0 {
+		if out, ok := f.voidReturn(ind); ok { // go2lean_own.go
+			return out
+		}
+		if io := f.inOutNames(); f.g.effectsOn() && len(io) > 0 && f.fnObj != nil && f.fnObj.Type().(*types.Signature).Results().Len() == 0 { // go2lean_effects.go
 			if len(io) == 1 {
 				return []string{g2lInd(ind) + "return " + io[0]}
 			}
 			return []string{g2lInd(ind) + "return (" + strings.Join(io, ", ") + ")"}
+		}
+		if out, ok := f.retVoid(ind); ok { // go2lean_env.go
+			return out
 		}
 		f.fail("bare return (named results are outside the subset)")
 	case 1:
@@ -557,7 +573,7 @@ func (f *g2lFn) forStmt(x *ast.ForStmt, ind int) []string {
 	if x.Init != nil {
 		out = append(out, f.stmt(x.Init, ind)...)
 	}
-	if x.Post != nil && g2lHasBranch(x.Body.List, token.CONTINUE) {
+	if x.Post != nil && g2lHasBranch(x.Body.List, token.CONTINUE) && !f.continueWithPostOK() { // go2lean_buffer.go
 		f.fail("`continue` in a loop with a post statement")
 	}
 	if x.Cond == nil && g2lHasBranch(x.Body.List, token.BREAK) {
@@ -570,6 +586,8 @@ func (f *g2lFn) forStmt(x *ast.ForStmt, ind int) []string {
 		cs = f.src(x.Cond)
 		out = append(out, fmt.Sprintf("%sif ¬ %s then break", g2lInd(ind+1), g2lPar(f.propExpr(x.Cond))))
 	}
+	f.pushPost(x.Post) // go2lean_buffer.go: emitted before each `continue` of this loop
+	defer f.popPost()
 	f.inLoop++
 	sw := f.inSw
 	f.inSw = 0
@@ -625,6 +643,10 @@ func (f *g2lFn) rangeStmt(x *ast.RangeStmt, ind int) []string {
 	var head []string
 	switch g2lKindOf(t) {
 	case kList:
+		if o2, h2, ok := f.rangeCursor(x, k, v, t, ind); ok { // go2lean_own.go
+			out, head = o2, h2
+			break
+		}
 		it := f.fresh("it")
 		if k == nil {
 			out = append(out, fmt.Sprintf("%sfor %s in %s do", g2lInd(ind), it, f.expr(x.X)))
@@ -678,6 +700,9 @@ func (f *g2lFn) stmt(s ast.Stmt, ind int) []string {
 	if out, ok := f.stmtEff(s, ind); ok { // go2lean_effects.go: calls of functions with in-out parameters
 		return out
 	}
+	if out, ok := f.stmtEnv(s, ind); ok { // go2lean_env.go: calls with in-out parameters, out-parameter primitives
+		return out
+	}
 	switch x := s.(type) {
 	case *ast.EmptyStmt:
 		return nil
@@ -688,7 +713,7 @@ func (f *g2lFn) stmt(s ast.Stmt, ind int) []string {
 		}
 		return out
 	case *ast.AssignStmt:
-		return f.assign(x, ind)
+		return f.assignOwn(x, ind) // go2lean_own.go
 	case *ast.IncDecStmt:
 		op := token.ADD
 		if x.Tok == token.DEC {
@@ -730,9 +755,15 @@ func (f *g2lFn) stmt(s ast.Stmt, ind int) []string {
 					val = z
 				}
 				out = append(out, f.letLine(ind, o, f.names[o], o.Type(), val))
+				out = append(out, f.foundDecl(o, ind)...) // go2lean_own.go
 			}
 		}
 		return out
+	case *ast.ExprStmt:
+		if f.g.bytesOn() { // go2lean_buffer.go (byte mode): buffer writes, copy, sort.SliceStable
+			return f.exprStmt(x, ind)
+		}
+		// otherwise: stmtOwn below, or outside the subset
 	case *ast.ReturnStmt:
 		return f.ret(x, ind)
 	case *ast.IfStmt:
@@ -757,8 +788,11 @@ func (f *g2lFn) stmt(s ast.Stmt, ind int) []string {
 			if f.inLoop == 0 {
 				f.fail("`continue` outside a loop")
 			}
-			return []string{g2lInd(ind) + "continue"}
+			return append(f.beforeContinue(ind), g2lInd(ind)+"continue") // go2lean_buffer.go
 		}
+	}
+	if out, ok := f.stmtOwn(s, ind); ok { // go2lean_own.go: call statements of functions with in-out parameters
+		return out
 	}
 	f.fail("statement `%s` (%T) is outside the subset", g2lOneLine(f.src(s)), s)
 	return nil
@@ -845,9 +879,11 @@ func (g *g2l) translateFunc(key string) (u *g2lUnit) {
 		f.fail("type parameters")
 	}
 	ast.Inspect(fd.Body, func(n ast.Node) bool {
-		switch n.(type) {
+		switch x := n.(type) {
 		case *ast.FuncLit:
-			f.fail("function literal")
+			if !f.allowedFuncLit(fd, x) { // go2lean_buffer.go: the comparator of sort.SliceStable
+				f.fail("function literal")
+			}
 		case *ast.GoStmt, *ast.DeferStmt, *ast.SelectStmt, *ast.SendStmt, *ast.TypeSwitchStmt, *ast.LabeledStmt:
 			f.fail("statement %T", n)
 		}
@@ -858,11 +894,15 @@ func (g *g2l) translateFunc(key string) (u *g2lUnit) {
 		f.fail("no type information")
 	}
 	sig := obj.Type().(*types.Signature)
-	if sig.Variadic() && !g.refsOn() { // go2lean_refs.go: the last parameter is the slice
+	if sig.Variadic() && !g.refsOn() && !g.env().Variadic { // go2lean_refs.go: the last parameter is the slice; go2lean_env.go
 		f.fail("variadic function")
 	}
-	void := sig.Results().Len() == 0
-	if void && len(g.inOutFor(key)) == 0 {
+	// a function without result: four extensions translate it, each for the configurations that ask for it
+	void := sig.Results().Len() == 0 && g.effectsOn() // go2lean_effects.go: the in-out parameters alone are the result
+	unitVoid := sig.Results().Len() == 0 && g.ownOn() // go2lean_own.go: Unit × the in-out parameters
+	envVoid := sig.Results().Len() == 0 && g.envOn()  // go2lean_env.go: the in-out parameters alone, a return appended to the body
+	effectOnly := f.effectOnlyOK(sig)                 // go2lean_buffer.go (byte mode): Unit × the in-out parameters
+	if sig.Results().Len() == 0 && (!(void || unitVoid || envVoid || effectOnly) || len(g.inOutFor(key)) == 0) {
 		f.fail("no result (a function without result is only called for its effect)")
 	}
 	if fd.Type.Results != nil {
@@ -874,11 +914,12 @@ func (g *g2l) translateFunc(key string) (u *g2lUnit) {
 	}
 	f.assignNames(fd)
 	f.findMutated(fd)
-	f.initEff(fd) // go2lean_effects.go
+	f.initEff(fd) // go2lean_effects.go (Effects configurations)
 	// parameters, receiver first
 	var params, remut []string
 	f.initPtrModes(obj)
 	f.initInOut(obj, g.inOutFor(key))
+	f.initOwned(fd) // go2lean_own.go (Own configurations)
 	addParam := func(v *types.Var, ptrRecv bool) {
 		name := f.names[v]
 		if name == "" {
@@ -908,7 +949,17 @@ func (g *g2l) translateFunc(key string) (u *g2lUnit) {
 		resT = f.lean(sig.Results())
 	}
 	resT = f.inOutResult(resT, sig.Results().Len())
-	if !void && !g2lTerminates(fd.Body.List) {
+	if envVoid { // go2lean_env.go: the end of the body returns the in-out parameters
+		resT = f.voidResult()
+		if !g2lTerminates(fd.Body.List) {
+			body := *fd.Body
+			body.List = append(append([]ast.Stmt{}, fd.Body.List...), &ast.ReturnStmt{})
+			fdc := *fd
+			fdc.Body = &body
+			fd = &fdc
+		}
+	}
+	if !void && !unitVoid && !effectOnly && !g2lTerminates(fd.Body.List) {
 		f.fail("the body does not end in a return on every path the translator recognises")
 	}
 	head := fmt.Sprintf("def %s %s : %s :=", u.lean, strings.Join(params, " "), resT)
@@ -927,6 +978,13 @@ func (g *g2l) translateFunc(key string) (u *g2lUnit) {
 		lines = append(lines, f.block(fd.Body.List, 1)...)
 		if void && !g2lTerminates(fd.Body.List) {
 			lines = append(lines, f.ret(&ast.ReturnStmt{}, 1)...)
+		}
+		if unitVoid {
+			vr, _ := f.voidReturn(1)
+			lines = append(lines, vr...)
+		}
+		if effectOnly {
+			lines = append(lines, f.effectOnlyReturn()) // go2lean_buffer.go
 		}
 		u.text = head + " Id.run do\n" + strings.Join(lines, "\n") + "\n"
 	}
